@@ -516,13 +516,13 @@ func scriptFamily(fam string, seed int64, n int) []Scenario {
 		var gates []string
 		switch fam {
 		case "flow":
-			w, gates = wFlow, []string{"polling.send.enter", "ws.send.enter", "upgrade.check"}
+			w, gates = wFlow, []string{"polling.send.enter", "ws.send.enter", "upgrade.check", "L.flush", "L.upgrade", "L.drain"}
 		case "life":
-			w, gates = wLife, []string{"socket.onclose.tested", "socket.close.tested", "handshake.constructed", "ws.send.enter", "polling.send.enter"}
+			w, gates = wLife, []string{"socket.onclose.tested", "socket.close.tested", "handshake.constructed", "ws.send.enter", "polling.send.enter", "L.close", "L.flush", "L.message"}
 		case "upg":
-			w, gates = wUpg, []string{"upgrade.gated", "upgrade.check", "ws.send.enter", "polling.send.enter"}
+			w, gates = wUpg, []string{"upgrade.gated", "upgrade.check", "ws.send.enter", "polling.send.enter", "L.flush", "L.close", "L.upgrade", "L.upgrading"}
 		case "poll":
-			w, gates = wPoll, []string{"polling.poll.tested", "polling.data.tested", "polling.send.enter"}
+			w, gates = wPoll, []string{"polling.poll.tested", "polling.data.tested", "polling.send.enter", "L.message", "L.flush", "L.close"}
 		}
 		if i%3 == 0 {
 			gates = nil // plain runs without any gate
@@ -550,6 +550,12 @@ func replayScenario(name string, beh []map[string]any) Scenario {
 		for _, gt := range sc.gates {
 			g.Park(gt, true)
 		}
+		// the drain-listener window is stepped only by behaviours of configurations that have it
+		for _, a := range beh {
+			if a["a"] == "flush.done" {
+				g.Park("L.drain", true)
+			}
+		}
 		sid := s.Sid
 		var cand *WSClient
 		for _, a := range beh {
@@ -558,6 +564,8 @@ func replayScenario(name string, beh []map[string]any) Scenario {
 				go w.Send(sid, SendOpt{Size: 6})
 			case "flush.hand":
 				g.Release("L.flush")
+			case "flush.done":
+				g.Release("L.drain")
 			case "appclose":
 				d, _ := a["discard"].(bool)
 				go w.Close(sid, d)
